@@ -34,13 +34,23 @@ def main():
         tmp = tempfile.mkdtemp(prefix="cocls-seeded.", dir="/var/tmp")
         try:
             repo = os.path.join(tmp, "repo")
-            subprocess.run(["rsync", "-a", "--exclude", "_build", "--exclude", ".git", "/repo/", repo + "/"], check=True)
-            p = subprocess.run(["patch", "-p1", "-s", "-d", repo, "-i", os.path.join(d, "patch.diff")],
-                               stdout=subprocess.PIPE, stderr=subprocess.STDOUT)
+            # a real git worktree of /repo's HEAD, so that a patch made before later hook commits can be applied 3-way
+            subprocess.run(["git", "-C", "/repo", "worktree", "add", "-q", "--detach", repo, "HEAD"], check=True)
+            pf = os.path.join(d, "patch.diff")
+            p = subprocess.run(["git", "-C", repo, "apply", pf], stdout=subprocess.PIPE, stderr=subprocess.STDOUT)
             if p.returncode:
-                print("%s: patch does not apply: %s" % (sid, p.stdout.decode()[-300:]))
-                results[sid] = {"error": "patch does not apply"}
-                continue
+                p = subprocess.run(["git", "-C", repo, "apply", "-3", pf], stdout=subprocess.PIPE, stderr=subprocess.STDOUT)
+                conflict = subprocess.run(["git", "-C", repo, "diff", "--name-only", "--diff-filter=U"], stdout=subprocess.PIPE).stdout.strip()
+                if p.returncode or conflict:
+                    print("%s: patch does not apply to /repo HEAD (even 3-way): %s" % (sid, p.stdout.decode()[-300:]))
+                    results[sid] = {"error": "patch does not apply"}
+                    continue
+                # refresh patch.diff so that `git -C /repo apply` works on the current tree (same change, new context)
+                subprocess.run(["git", "-C", repo, "reset", "-q"], check=True)
+                nd = subprocess.run(["git", "-C", repo, "diff"], stdout=subprocess.PIPE).stdout
+                shutil.copy(pf, os.path.join(d, "patch.orig.diff")) if not os.path.exists(os.path.join(d, "patch.orig.diff")) else None
+                open(pf, "wb").write(nd)
+                print("%s: patch.diff refreshed against current /repo HEAD (3-way)" % sid)
             for pid in props:
                 if pid not in claimed:
                     print("%s: property %s not claimed" % (sid, pid)); continue
@@ -62,6 +72,8 @@ def main():
                     if os.path.exists(path):
                         shutil.copy(path, os.path.join(d, "replay_%s.json" % pid))
         finally:
+            subprocess.run(["git", "-C", "/repo", "worktree", "remove", "--force", os.path.join(tmp, "repo")],
+                           stdout=subprocess.DEVNULL, stderr=subprocess.DEVNULL)
             shutil.rmtree(tmp, ignore_errors=True)
     json.dump(results, open(rp, "w"), indent=1, sort_keys=True)
     # the evidence files were rewritten by runs against a mutated copy: restore them from git so that committed evidence
